@@ -7,6 +7,7 @@ pub mod c09;
 pub mod c10;
 pub mod c11;
 pub mod c13;
+pub mod c14;
 pub mod c15;
 
 pub fn lookup(id: &str) -> Option<(&'static str, fn(&mut Ctx))> {
@@ -18,6 +19,7 @@ pub fn lookup(id: &str) -> Option<(&'static str, fn(&mut Ctx))> {
         "C10" => ("C10", c10::run as fn(&mut Ctx)),
         "C11" => ("C11", c11::run as fn(&mut Ctx)),
         "C13" => ("C13", c13::run as fn(&mut Ctx)),
+        "C14" => ("C14", c14::run as fn(&mut Ctx)),
         "C15" => ("C15", c15::run as fn(&mut Ctx)),
         _ => return None,
     })
